@@ -141,17 +141,42 @@ class _Gen:
             return ["STOP"], "ok"
         return revert_plain(), "rv"
 
-    def tree(self, depth: int, pool: list):
-        if depth <= 0 or self.rnd.random() < 0.08:
+    def tree(self, depth: int, pool: list, forced: tuple = ()):
+        """`forced` atoms are taken first (down the true branches): a contradiction seeded near the root makes
+        a whole subtree infeasible, so that one unsat core answers many later queries."""
+        if depth <= 0 or (not forced and self.rnd.random() < 0.08):
             return self.leaf()
-        if not pool:
+        if forced:
+            (c, cd), rest = forced[0], [a for a in pool if a[1] != forced[0][1]]
+        elif not pool:
             return self.leaf()
-        k = self.rnd.randrange(len(pool))
-        (c, cd), rest = pool[k], pool[:k] + pool[k + 1:]  # an atom occurs at most once on a path
-        t, td = self.tree(depth - 1, rest)
+        else:
+            k = self.rnd.randrange(len(pool))
+            (c, cd), rest = pool[k], pool[:k] + pool[k + 1:]  # an atom occurs at most once on a path
+        t, td = self.tree(depth - 1, rest, forced[1:])
         e, ed = self.tree(depth - 1, rest)
         lt = self.label()
         return c + [("PUSHL", lt), "JUMPI"] + e + [("LABEL", lt)] + t, f"({cd}?{td}:{ed})"
+
+    def contradiction(self):
+        """Two or three atoms that cannot hold together (inequalities: halmos folds equalities with constants
+        into the path by substitution, so contradictory equalities never reach the solver)."""
+        r = self.rnd
+        i = r.randrange(self.nargs)
+        lt = lambda x, c: ([("PUSH", c)] + arg(x) + ["LT"], f"a{x}<{c}")  # noqa: E731
+        gt = lambda x, c: ([("PUSH", c)] + arg(x) + ["GT"], f"a{x}>{c}")  # noqa: E731
+        k = r.randrange(5)
+        if k == 0:
+            return (lt(i, 2), gt(i, 3))
+        if k == 1:
+            return (gt(i, 2), lt(i, 3))
+        if k == 2 and self.nargs >= 2:
+            j = (i + 1) % self.nargs
+            return ((arg(j) + arg(i) + ["LT"], f"a{i}<a{j}"), (arg(i) + arg(j) + ["LT"], f"a{j}<a{i}"))
+        if k == 3 and self.nargs >= 2:
+            j = (i + 1) % self.nargs
+            return ((arg(j) + arg(i) + ["LT"], f"a{i}<a{j}"), lt(j, 2), gt(i, 3))
+        return (gt(i, 1), lt(i, 1))
 
 
 def unsatcache_gen_contract(rnd: random.Random, ntests: int = 3, depth=(3, 5), hard: float = 0.04, name: str = "UcTest"):
@@ -177,7 +202,8 @@ def unsatcache_gen_contract(rnd: random.Random, ntests: int = 3, depth=(3, 5), h
                 pool.append(a)
             if len(pool) >= d + rnd.randint(0, 2):
                 break
-        body, desc = g.tree(d, pool)
+        forced = g.contradiction() if rnd.random() < 0.5 else ()
+        body, desc = g.tree(d + (1 if forced else 0), pool, forced)
         if g.npanics == 0:
             body, desc = panic(1), "P"
             g.nleaves, g.npanics = 1, 1
@@ -490,7 +516,7 @@ class UnsatcacheBatch:
 
     def __init__(self):
         self.traces: list[dict] = []
-        self.family: list[list[int]] = []
+        self._fam_cur: list[list[int]] = []
         self._fam_seen: set = set()
         self._intern: dict = {}
         self.meta: list[dict] = []
@@ -502,11 +528,18 @@ class UnsatcacheBatch:
         key = tuple(sorted(set(s)))
         if key and key not in self._fam_seen:
             self._fam_seen.add(key)
-            self.family.append(list(key))
+            self._fam_cur.append(list(key))
+
+    def add_built(self, trace: dict, meta: dict | None = None) -> int:
+        """A log already converted by `add` in another process (constraint numbers are local to a log)."""
+        self.traces.append(trace)
+        self.meta.append(meta or {})
+        return len(self.traces)
 
     def add(self, rec: UnsatcacheRecorder, name: str, meta: dict | None = None) -> int:
         t = len(self.traces) + 1
         evs = []
+        self._fam_cur, self._fam_seen = [], set()  # the jointly unsatisfiable constraint sets of this log
         cons_of = {}  # q -> {id: constraint number}
         for e in rec.events:
             k = e["e"]
@@ -523,7 +556,7 @@ class UnsatcacheBatch:
             elif k == "check":
                 if e["q"] is None:
                     raise MachineryError("check_unsat_cores called on a query the recorder did not see")
-                evs.append({"e": "check", "q": e["q"], "hit": e["hit"], "cores": e["cores"],
+                evs.append({"e": "check", "q": e["q"], "hit": e["hit"], "nc": len({tuple(sorted(c)) for c in e["cores"]}),
                             "truth": rec.qdata[e["q"]].get("truth", "unknown")})
             elif k == "core":
                 evs.append({"e": "core", "q": e["q"] if e["q"] is not None else 0, "ids": e["ids"]})
@@ -532,7 +565,7 @@ class UnsatcacheBatch:
                     self._fam([m[i] for i in e["ids"]])
             elif k == "done":
                 evs.append({"e": "done", "q": e["q"] if e["q"] is not None else 0})
-        self.traces.append({"name": name, "events": evs})
+        self.traces.append({"name": name, "events": evs, "family": self._fam_cur})
         self.meta.append(meta or {})
         return t
 
@@ -548,7 +581,7 @@ class UnsatcacheBatch:
                 elif e["e"] == "endtest":
                     core = None
                 elif e["e"] == "query" and core and core[0] in e["ids"]:
-                    e["cons"][e["ids"].index(core[0])] = self._c(-t, "corrupt")
+                    e["cons"][e["ids"].index(core[0])] = 10**8 + t  # a constraint number no log uses
                     break
             else:
                 return None
@@ -582,7 +615,7 @@ class UnsatcacheBatch:
                 return None
         else:
             raise ValueError(how)
-        self.traces.append({"name": f"{self.traces[t-1]['name']}#{how}", "events": evs})
+        self.traces.append({"name": f"{self.traces[t-1]['name']}#{how}", "events": evs, "family": self.traces[t - 1]["family"]})
         self.meta.append({"control": how, "of": t})
         return len(self.traces)
 
@@ -591,7 +624,7 @@ class UnsatcacheBatch:
         if not self.traces:
             raise MachineryError("no traces to validate")
         f = work / f"c16-traces-{len(self.traces)}-{int(time.time()*1000) % 10**8}.json"
-        f.write_text(json.dumps({"family": self.family, "traces": self.traces}))
+        f.write_text(json.dumps({"traces": self.traces}))
         r = run_tlc("Trace_UnsatCache", cfg, work=work, workers=workers, env={"C16_TRACES": str(f)},
                     heap="4g")
         if not r.ok:
@@ -736,10 +769,92 @@ def unsatcache_run(case: UcCase, cache: bool, dump: FsPath, mutant: str | None =
     return rec, out, metas
 
 
+def unsatcache_case(case: UcCase, work: FsPath, pool, mutant: str | None = None, with_off: bool = True,
+                    reserialize: bool = False, s_off: dict | None = None) -> dict:
+    """Everything that is done with one generated contract; the result is JSON-able (it crosses processes in
+    the thorough tier): same-process differential, oracle, converted log, counterexample re-validation, stats."""
+    t0 = time.time()
+    res: dict = {"index": case.index, "key": case.key(), "mutant": mutant}
+    if with_off and s_off is None:
+        rec_off, out_off, _ = unsatcache_run(case, cache=False, dump=work / "dump")
+        s_off = unsatcache_summary(rec_off, out_off)
+    t1 = time.time()
+    rec, out, metas = unsatcache_run(case, cache=True, dump=work / "dump", mutant=mutant, reserialize=reserialize)
+    t2 = time.time()
+    unsatcache_oracle(rec, work / "oracle", f"c{case.index}{mutant or ''}", pool)
+    s_on = unsatcache_summary(rec, out)
+    res["s_on"], res["s_off"] = s_on, s_off
+    res["diffs"] = [list(d) for d in unsatcache_compare(s_off, s_on)] if s_off else []
+    b = UnsatcacheBatch()
+    b.add(rec, f"case{case.index}" + (f"-{mutant}" if mutant else ""))
+    res["trace"] = b.traces[0]
+    models = {"compared": 0, "identical": 0, "revalidated": 0, "invalid": []}
+    if s_off and not mutant:
+        for sig in s_on["order"]:
+            for pid, y in s_on["tests"][sig]["paths"].items():
+                if y["result"] != "sat":
+                    continue
+                models["compared"] += 1
+                x = s_off["tests"].get(sig, {}).get("paths", {}).get(pid)
+                if x and x.get("values") == y["values"]:
+                    models["identical"] += 1
+                    continue
+                models["revalidated"] += 1
+                if unsatcache_model_holds(rec, y["q"], work / "oracle" / f"m{case.index}-{y['q']}.smt2") == "unsat":
+                    models["invalid"].append([sig, pid, y["values"]])
+    res["models"] = models
+    cores = [len(e["ids"]) for e in rec.events if e["e"] == "core"]
+    nontrivial, tno = [], 0
+    for e in rec.events:
+        if e["e"] == "test":
+            tno += 1
+        elif e["e"] == "core":
+            nontrivial.append(["core", tno])
+        elif e["e"] == "check" and e["hit"]:
+            nontrivial.append(["hit", tno])
+    res["stats"] = {
+        "queries": len(rec.qdata), "unsat": sum(1 for q in rec.qdata.values() if q.get("truth") == "unsat"),
+        "oracle_unknown": sum(1 for q in rec.qdata.values() if q.get("truth") == "unknown"),
+        "hits": sum(1 for e in rec.events if e["e"] == "check" and e["hit"]), "cores": cores, "gc": rec.gc_runs,
+        "nontrivial": [list(x) for x in sorted({tuple(x) for x in nontrivial})],
+        "times": [round(t1 - t0, 1), round(t2 - t1, 1), round(time.time() - t2, 1)],
+    }
+    res["sample"] = {"case": case.index, "cli": list(case.cli), "inject": case.inject, "tests": [m.tree[:160] for m in metas],
+                     "queries": len(rec.qdata), "unsat": res["stats"]["unsat"], "cores": cores, "hits": res["stats"]["hits"],
+                     "exit_codes": [r.exitcode for r in out.results]}
+    shutil.rmtree(work / "oracle", ignore_errors=True)
+    return res
+
+
+def _cases_from(path: str) -> list:
+    return [UcCase(**{**c, "depth": tuple(c["depth"]), "cli": tuple(c["cli"])}) for c in json.loads(FsPath(path).read_text())]
+
+
+def unsatcache_cases_json(cases) -> str:
+    return json.dumps([{"seed": c.seed, "index": c.index, "ntests": c.ntests, "depth": list(c.depth), "hard": c.hard,
+                        "cli": list(c.cli), "inject": c.inject} for c in cases])
+
+
+def unsatcache_shard_main(argv: list[str]) -> int:
+    """`python -m harness.unsatcache_replay shard in.json out.json workdir`: one process runs its share of the
+    contracts one after the other (cache off / cache on alternating, so ids recycle across tests and contracts)."""
+    from concurrent.futures import ThreadPoolExecutor
+
+    unsatcache_tune_allocator()
+    work = FsPath(argv[2])
+    work.mkdir(parents=True, exist_ok=True)
+    pool = ThreadPoolExecutor(3)
+    out = []
+    for case in _cases_from(argv[0]):
+        out.append(unsatcache_case(case, work, pool, reserialize=(case.index % 7 == 3)))
+    FsPath(argv[1]).write_text(json.dumps(out))
+    return 0
+
+
 def unsatcache_baseline_main(argv: list[str]) -> int:
     """`python -m harness.unsatcache_replay baseline in.json out.json`: cache-off summaries in a fresh process."""
     unsatcache_tune_allocator()
-    cases = [UcCase(**{**c, "depth": tuple(c["depth"]), "cli": tuple(c["cli"])}) for c in json.loads(FsPath(argv[0]).read_text())]
+    cases = _cases_from(argv[0])
     dump = FsPath(argv[2])
     res = []
     for case in cases:
@@ -841,4 +956,6 @@ if __name__ == "__main__":
 
     if len(sys.argv) >= 5 and sys.argv[1] == "baseline":
         sys.exit(unsatcache_baseline_main(sys.argv[2:]))
+    if len(sys.argv) >= 5 and sys.argv[1] == "shard":
+        sys.exit(unsatcache_shard_main(sys.argv[2:]))
     print(__doc__)
